@@ -12,6 +12,7 @@ import (
 	"github.com/TheCacophonyProject/lepton3"
 	"github.com/TheCacophonyProject/thermal-recorder/motion"
 	"github.com/TheCacophonyProject/thermal-recorder/recorder"
+	"github.com/TheCacophonyProject/thermal-recorder/throttle"
 	"github.com/TheCacophonyProject/window"
 )
 
@@ -27,6 +28,9 @@ type PCfg struct {
 	Constant bool   `json:"constant,omitempty"`
 	Window   string `json:"window,omitempty"` // "", "day" (09:00-17:00), "night" (22:00-06:00)
 	Via      string `json:"via"`              // "frame" = ProcessFrame, "raw" = Process with a harness parser
+	// Throttle wraps the motion sink in a real ThrottledRecorder (min length = min+preview secs) whose
+	// clock is owned by the driver: it advances 1/fps per frame event, and by 10*capacity ticks on a "J" event.
+	Throttle *TCfg `json:"throttle,omitempty"`
 }
 
 func (c PCfg) Cap() int  { return c.Preview*c.FPS + c.Trigger }
@@ -65,6 +69,7 @@ type PObs struct {
 	Thr  uint16 // start: threshold argument
 	BG   *cptvframe.Frame
 	Ptr  *cptvframe.Frame
+	At   time.Duration // driver clock (throttle compositions only)
 }
 
 type monSink struct {
@@ -114,7 +119,7 @@ func (s *monSink) WriteFrame(f *cptvframe.Frame) error {
 		s.breach = fmt.Sprintf("write-while-closed:event %d", s.d.ev+1)
 	}
 	fail := s.fails('w')
-	s.d.log = append(s.d.log, PObs{Ev: s.d.ev, Src: s.name, Call: 'w', ID: f.Status.FrameCount, OK: !fail, Ptr: f})
+	s.d.log = append(s.d.log, PObs{Ev: s.d.ev, Src: s.name, Call: 'w', ID: f.Status.FrameCount, OK: !fail, Ptr: f, At: s.d.elapsed})
 	if fail {
 		return errInjected
 	}
@@ -165,6 +170,9 @@ type PDrv struct {
 	evDisk   []bool
 	evStart  []bool
 	panicMsg string
+	tclk     *tclock
+	elapsed  time.Duration
+	nThrottled int
 }
 
 const (
@@ -260,8 +268,25 @@ func NewPDrv(c PCase) *PDrv {
 		var np *monSink
 		crArg = np
 	}
-	d.mp = motion.NewMotionProcessor(d.parse, pMotionConf(c.Cfg.Trigger), rc, &config.Location{}, d, d.m, d.cam, crArg, d.t)
+	var motionRec recorder.Recorder = d.m
+	if t := c.Cfg.Throttle; t != nil {
+		d.tclk = &tclock{now: time.Unix(1_600_000_000, 0)}
+		tc := &config.ThermalThrottler{Activate: true, BucketSize: time.Duration(t.BucketSecs) * time.Second, MinRefill: time.Duration(t.RefillSecs) * time.Second}
+		motionRec = throttle.NewThrottledRecorderWithClock(d.m, tc, c.Cfg.Min+c.Cfg.Preview, throttledCounter{d}, d.tclk, d.cam)
+	}
+	d.mp = motion.NewMotionProcessor(d.parse, pMotionConf(c.Cfg.Trigger), rc, &config.Location{}, d, motionRec, d.cam, crArg, d.t)
 	return d
+}
+
+type throttledCounter struct{ d *PDrv }
+
+func (t throttledCounter) WhenThrottled() { t.d.nThrottled++ }
+
+func (d *PDrv) tick(dt time.Duration) {
+	if d.tclk != nil {
+		d.tclk.now = d.tclk.now.Add(dt)
+		d.elapsed += dt
+	}
 }
 
 // RecordingListener
@@ -341,7 +366,13 @@ func (d *PDrv) Apply(tok string) (perr error) {
 		}
 	}()
 	switch kind {
+	case 'J':
+		d.evID = append(d.evID, 0)
+		if t := d.cfg.Throttle; t != nil {
+			d.tick(time.Duration(10 * float64(t.BucketSecs*d.cfg.FPS) * 1e9 * float64(t.RefillSecs) / float64((d.cfg.Min+d.cfg.Preview)*d.cfg.FPS)))
+		}
 	case '1', '0':
+		d.tick(time.Second / time.Duration(d.cfg.FPS))
 		if kind == '1' {
 			d.level = !d.level
 		}
